@@ -67,6 +67,25 @@ func mdnsEngine(args []string) error {
 		for i := 0; i < nEarly; i++ {
 			send(base[r.intn(len(base))], ips[r.intn(len(ips))])
 		}
+		syncs := 0
+		quiet := func() {
+			// a quiet period (minutes to days) during which nothing is announced, then re-announcements: nothing an
+			// announcement said earlier may be lost or left in one view only because it is old
+			syncs++
+			sn := fmt.Sprintf("sync-%d-%d.local", h, syncs)
+			send(sn, net.IP{10, 250, 250, byte(syncs)})
+			dl := time.Now().Add(5 * time.Second)
+			for len(m.LookupHost(sn+".")) == 0 && time.Now().Before(dl) {
+				time.Sleep(time.Millisecond)
+			}
+			m.VerifAge([]time.Duration{3 * time.Minute, time.Hour, 48 * time.Hour}[r.intn(3)])
+			for i := r.rng(2, 6); i > 0; i-- {
+				send(base[r.intn(len(base))], ips[r.intn(len(ips))])
+			}
+		}
+		if h%3 != 0 {
+			quiet()
+		}
 		overflow := h%2 == 0
 		nfill := r.rng(20, 200)
 		if overflow {
@@ -81,6 +100,9 @@ func mdnsEngine(args []string) error {
 			send(name, ip)
 			if r.coin(3) {
 				send(base[r.intn(len(base))], ips[r.intn(len(ips))]) // refresh an early name: it must survive eviction
+			}
+			if h%4 == 1 && i == nfill/2 {
+				quiet()
 			}
 		}
 		// sentinel: wait until the reader has processed everything
